@@ -84,7 +84,7 @@ type Specs struct {
 var clauseKw = map[string]bool{"requires": true, "ensures": true, "modifies": true, "invariant": true,
 	"decreases": true, "ghost": true, "property": true, "attr": true, "assume": true, "havoc": true}
 
-var headRe = regexp.MustCompile(`^(func|functype|iface|extern|pred|fn|ghost|inlinepkg|opaque)\b`)
+var headRe = regexp.MustCompile(`^(func|functype|iface|extern|pred|fn|ghost|inlinepkg|opaque|modset)\b`)
 
 func loadSpecs(root string, pkgDirs map[string]string) (*Specs, error) {
 	sp := &Specs{Funcs: map[string]*Contract{}, Loops: map[string][]*Contract{}, Closures: map[string][]*Contract{},
@@ -157,6 +157,17 @@ func (sp *Specs) parseFile(pkgPath, file string) error {
 				rest = strings.TrimSpace(rest[len(kw):])
 			}
 			switch kw {
+			case "modset":
+				// modset name(p) := l-value, l-value, ...   (textual abbreviation usable in modifies clauses)
+				idx := strings.Index(rest, ":=")
+				op := strings.Index(rest, "(")
+				cp := strings.Index(rest, ")")
+				if idx < 0 || op < 0 || cp < op || cp > idx {
+					return fmt.Errorf("%s: bad modset", where)
+				}
+				fn := &SpecFn{Pkg: pkgPath, Name: "modset:" + strings.TrimSpace(rest[:op]), Where: where, Body: rest[idx+2:]}
+				fn.Params = []SpecParam{{Name: strings.TrimSpace(rest[op+1 : cp])}}
+				curFn = fn
 			case "inlinepkg":
 				sp.InlinePkg = append(sp.InlinePkg, rest)
 			case "ghost":
